@@ -286,6 +286,30 @@ def cases_for(op, seed):
             prog = ";".join("%d,%d,%d,%s" % (ty, h, d, " ".join(tree_tokens(t))) for ty, h, d, t in cmds)
             yield ("opt.cmp\t%s" % prog, ("selfeq",), {"op": "run unoptimised vs optimised level 2", "commands(type,syllables,dots,area)": prog,
                                                          "note": "loop of %d rounds printing 'A' in each round" % rounds})
+        # level-1 renumbering: a stack selected by 흑 that is read only after a backward jump, next to a write-only stack
+        prog = "0,1,66,N;0,1,1,N;0,1,65,N;0,1,67,N;1,1,7,N;1,1,1,H2;5,1,5,N;0,1,1,Q N E H2 N"
+        yield ("opt.cmp\t%s" % prog, ("selfeq",), {"op": "run unoptimised vs optimised level 2", "commands(type,syllables,dots,area)": prog,
+                                                   "note": "stack 5 is read only after a jump back; stack 7 is write-only"})
+        # pre-computed output beyond ASCII (level 2 hands it on through stacks 1 / 2)
+        for (h, d, tgt) in ((2, 100, 1), (2, 64075, 1), (1, 0x10FFFF, 2), (3, 1000, 2)):
+            prog = "0,%d,%d,N;1,1,%d,N;0,1,65,N;1,1,%d,N" % (h, d, tgt, tgt)
+            yield ("opt.cmp\t%s" % prog, ("selfeq",), {"op": "run unoptimised vs optimised level 2", "commands(type,syllables,dots,area)": prog,
+                                                       "note": "prints U+%04X then 'A' on stack %d" % (h * d, tgt)})
+        # many stacks, some only written to, some selected and read; two of them printed at the end
+        for _ in range(250):
+            n = rnd.randint(3, 9)
+            cmds = []
+            for _ in range(n):
+                ty = rnd.choice([0, 0, 1, 1, 2, 3, 4, 5, 5])
+                h = rnd.randint(1, 2)
+                d = rnd.randint(1, 5) if ty == 0 else rnd.randint(3, 9)
+                cmds.append((ty, h, d, N))
+            for q in rnd.sample(range(3, 10), 2):
+                cmds.append((5, 1, q, N))
+                cmds.append((1, 1, 1, N))
+                cmds.append((1, 2, 1, N))
+            prog = ";".join("%d,%d,%d,%s" % (ty, h, d, " ".join(tree_tokens(t))) for ty, h, d, t in cmds)
+            yield ("opt.cmp\t%s" % prog, ("selfeq",), {"op": "run unoptimised vs optimised level 2", "commands(type,syllables,dots,area)": prog})
         for _ in range(300):
             n = rnd.randint(2, 7)
             cmds = []
@@ -498,7 +522,7 @@ OPS = {
     "num_partial_cmp": ["num.cmp"], "fmt_display_Num": ["num.show", "num.roundtrip"], "fmt_display_BigNum": ["big.show"],
     "PartialOrd_for_Num::partial_cmp": ["num.cmp"], "PartialEq_for_Num::eq": ["num.eq"],
     "calc": ["area.calc"], "Area::new": ["area.calc"],
-    "opt_execute": ["opt.cmp"], "calc_on_state_opt": ["opt.cmp"],
+    "opt_execute": ["opt.cmp"], "calc_on_state_opt": ["opt.cmp"], "optimize": ["opt.cmp"],
     "execute_one": ["exec.steps"], "calc_on_state": ["exec.steps", "area.calc"], "push_stack_wrap": ["exec.steps"],
     "pop_stack_wrap": ["exec.steps", "stdin.cat", "exit.pop"], "ReadLine_for_std::io::Stdin::read_line_": ["stdin.cat"], "io_read_line_from": ["stdin.cat"], "State::push_stack": ["exec.steps"], "State::pop_stack": ["exec.steps"],
     "trait_State::push_stack": ["exec.steps"], "trait_State::pop_stack": ["exec.steps"], "ext_num_to_unicode": [],
@@ -527,11 +551,27 @@ def matches(got, exp):
     return got == exp
 
 
-def search_ops(ops, seed):
+def known_replay_inputs(prop):
+    """(replay line, output) pairs that known_findings.json lists for known (unrepaired) findings of this property"""
+    try:
+        k = json.load(open(os.path.join(os.path.dirname(HERE), "known_findings.json")))
+    except Exception:
+        return set()
+    res = set()
+    for f in k.get("findings", []):
+        if f.get("status") == "known" and (prop is None or f.get("property") == prop):
+            for ri in f.get("replay_inputs", []):
+                res.add((ri["replay_line"], ri["got"]))
+    return res
+
+
+def search_ops(ops, seed, prop=None):
     ok, log = build()
     if not ok:
         return {"input": None, "note": "replay driver did not build: " + log[-400:]}
     tried = 0
+    known = known_replay_inputs(prop)
+    known_seen = 0
     for op in ops:
         cases = list(cases_for(op, seed))
         if not cases:
@@ -540,6 +580,10 @@ def search_ops(ops, seed):
         for (line, exp, pretty), got in zip(cases, outs):
             tried += 1
             if not matches(got, exp):
+                if (line, got) in known:
+                    # exactly the recorded failing input and output of a known finding: not a new violation
+                    known_seen += 1
+                    continue
                 return {"input": pretty, "replay_line": line,
                         "expected": exp if not isinstance(exp, tuple) else ("|x| = %d" % exp[1] if exp[0] == "abs" else "same output at level 0 and level 2"),
                         "got": got, "note": "found by boundary-value replay against the Python oracle (%d inputs tried)" % tried}
@@ -550,14 +594,14 @@ def search(prop, region, seed, tier):
     ops = OPS.get(region)
     if not ops:
         return {"input": None, "note": "no replay operation is mapped to %s" % region}
-    return search_ops(ops, seed)
+    return search_ops(ops, seed, prop)
 
 
 def search_property(prop, seed, tier):
     ops = PROP_OPS.get(prop)
     if not ops:
         return None
-    return search_ops(ops, seed)
+    return search_ops(ops, seed, prop)
 
 
 def replay_doc(doc):
